@@ -116,6 +116,51 @@ def _place(rng, mol, species, n_sites, required=(), aromatic_sites=False):
     return descs, placed
 
 
+def _pendant_mol(rng):
+    """A vinyl-type repeat unit with a pendant aromatic ring that contains an H-bearing ring nitrogen (pyrrole,
+    imidazole, indole) or an N-substituted pyrrole. No descriptor can sit on the ring; the written [nH] hydrogen
+    has to survive every growth step and the final hydrogen rebuild."""
+    mol = gen_mol.Mol("atomistic")
+
+    def carbon(arom=False):
+        return mol.add_atom(el="C", charge=0, arom=arom, cap=4)
+
+    def nitrogen(with_h):
+        # pyrrole-type N: two ring bonds (counted 1.5 each) and one more bond (its hydrogen or the substituent)
+        atom = mol.add_atom(el="N", charge=0, arom=True, cap=4 if with_h else 3)
+        if with_h == "H":
+            mol.atoms[atom]["hwrite"] = 1
+        return atom
+
+    backbone = [carbon() for _ in range(rng.choice([2, 2, 3]))]
+    for a, b in zip(backbone, backbone[1:]):
+        mol.add_bond(a, b, 1)
+    anchor = rng.choice(backbone)
+    for _ in range(rng.choice([0, 1, 1, 2])):
+        linker = carbon()
+        mol.add_bond(anchor, linker, 1)
+        anchor = linker
+    kind = rng.choice(["pyrrole", "pyrrole", "imidazole", "indole", "n-pyrrole"])
+    if kind == "pyrrole":
+        ring = [carbon(True), carbon(True), nitrogen("H"), carbon(True), carbon(True)]
+        closures, sites = [(0, 4)], [0, 1, 3, 4]
+    elif kind == "n-pyrrole":
+        ring = [carbon(True), carbon(True), nitrogen("R"), carbon(True), carbon(True)]
+        closures, sites = [(0, 4)], [2]
+    elif kind == "imidazole":
+        ring = [carbon(True), carbon(True), nitrogen("H"), carbon(True), nitrogen(None)]
+        closures, sites = [(0, 4)], [0, 1, 3]
+    else:
+        ring = [carbon(True), carbon(True), nitrogen("H")] + [carbon(True) for _ in range(6)]
+        closures, sites = [(8, 0), (8, 3)], [0, 1, 4, 5, 6, 7]
+    for a, b in zip(ring, ring[1:]):
+        mol.add_bond(a, b, 1.5)
+    for a, b in closures:
+        mol.add_bond(ring[a], ring[b], 1.5)
+    mol.add_bond(anchor, ring[rng.choice(sites)], 1)
+    return mol
+
+
 def gen_config(rng, all_atom=None, tier="quick"):
     all_atom = (rng.random() < 0.65) if all_atom is None else all_atom
     wild = rng.random() < 0.15
@@ -124,6 +169,10 @@ def gen_config(rng, all_atom=None, tier="quick"):
     import os
     aromatic_sites = rng.random() < float(os.environ.get("VERIF_AROMATIC_SITES", "0.2"))
     explicit_h = rng.random() < 0.25
+    # pendant rings with an H-bearing aromatic nitrogen: the ring is kekulised by the final hydrogen rebuild
+    pendant = bool(all_atom) and rng.random() < 0.06
+    if pendant:
+        aromatic_sites, hyper, explicit_h = False, False, False
     species = _species(rng)
     n_frag = rng.choice([1, 2, 2, 3, 3, 4])
     names = rng.sample(NAMES, n_frag)
@@ -133,7 +182,9 @@ def gen_config(rng, all_atom=None, tier="quick"):
     rng.shuffle(pending)
     for idx, name in enumerate(names):
         for _ in range(8):
-            if all_atom:
+            if pendant and (idx == 0 or rng.random() < 0.6):
+                mol = _pendant_mol(rng)
+            elif all_atom:
                 mol = gen_mol.gen_atomistic(rng, rng.randint(1, 7) if not aromatic_sites else rng.randint(4, 10),
                                             rich=(rng.random() < 0.35) or aromatic_sites,
                                             hyper=(("S", "P", "N", "exotic") if rng.random() < 0.3 else ("S", "P", "N")) if hyper else (), explicit_h=explicit_h)
@@ -174,6 +225,15 @@ def gen_config(rng, all_atom=None, tier="quick"):
             "descs": {str(pos): ["%s%s%d" % d for d in descs[a]] for pos, a in enumerate(appearance) if descs.get(a)},
             "hfill": [mol.hfill(a) if all_atom else 0 for a in appearance],
         }
+        if all_atom:
+            # per-atom valence bookkeeping for the hydrogen-count oracle: bonds in use (explicit hydrogens included),
+            # admissible valence states, explicit hydrogen neighbours
+            template["used"] = [mol.used(a) for a in appearance]
+            template["states"] = [([mol.atoms[a]["cap"]] if mol.atoms[a]["arom"] else
+                                   gen_mol.VALENCE_STATES.get((mol.atoms[a]["el"], mol.atoms[a]["charge"]), [mol.atoms[a]["cap"]]))
+                                  for a in appearance]
+            template["xh"] = [sum(1 for b in mol.adj[a] if mol.atoms[b]["el"] == "H") for a in appearance]
+            template["nh_ring"] = any(at["arom"] and at["el"] == "N" and at["cap"] == 4 for at in mol.atoms)
         if all_atom:
             template["mass"] = sum(MASS[mol.atoms[a]["el"]] for a in appearance) + MASS["H"] * sum(template["hfill"])
             if rng.random() < 0.12:
@@ -246,7 +306,7 @@ def gen_config(rng, all_atom=None, tier="quick"):
     target = min(target, cap_steps * min(m for n, m in mass_of.items() if n in {f["name"] for f in frags}))
     start = rng.choice([f["name"] for f in frags]) if rng.random() < 0.4 else None
     return {
-        "all_atom": all_atom, "wild": wild,
+        "all_atom": all_atom, "wild": wild, "pendant": pendant,
         "explicit_h": any(a.get("el") == "H" for f in frags for a in f["atoms"]),
         "string": "{" + ",".join("#%s=%s" % (f["name"], f["text"]) for f in frags) + "}",
         "templates": frags,
